@@ -357,7 +357,7 @@ impl Scenario for RoundTripScenario {
             level: "exploration",
             rule: "one seeded run = a seeded dictionary (matrix/raw/dual) and a history of 3-12 events: RoundTrip(replica) through seeded short-write/EINTR sinks and short-read/EINTR readers (adds a replica, also of a replica that is itself a round trip), LoadUser/ClearUser/Map applied to every replica, AddRebuilt (dual only: rebuild from sources under another template split and replay the history), Observe (full token tuples for probes x option sets and every id-pair connection cost must be equal across replicas), WriteAll (all round-trip replicas write identical bytes; returned count == bytes accepted), FailWrite/FailRead (hard fault at a seeded offset must give Err). distinct_nontrivial = distinct plan hashes of runs with >= 1 observation after >= 1 round trip or state change",
             assumptions: vec![
-                "portable build only in this command; the portable<->AVX2 exchange runs in the thorough tier (cross-build step)",
+                "the seeded runs use the portable build; the portable<->AVX2 interchange is decided by the two-build exchange step of ./check (120 cases per direction in quick, 1500 in thorough; skipped with a note on CPUs without AVX2), reported under cross_build_exchange",
                 "observational equality is over seeded probe sentences and all id pairs, not all sentences",
             ],
             real: vec!["Dictionary::{write,read,reset_user_lexicon_from_reader,map_connection_ids_from_iter}, all Encode/Decode impls, tokenizer"],
